@@ -141,7 +141,13 @@ type RoundMJ struct {
 }
 
 func (v RoundMJ) MarshalJSON() ([]byte, error) {
-	return stdjson.Marshal([]interface{}{v.N, v.S})
+	var buf bytes.Buffer
+	e := stdjson.NewEncoder(&buf)
+	e.SetEscapeHTML(false) // the method itself never spells < > & as escapes
+	if err := e.Encode([]interface{}{v.N, v.S}); err != nil {
+		return nil, err
+	}
+	return bytes.TrimSuffix(buf.Bytes(), []byte("\n")), nil
 }
 func (v *RoundMJ) UnmarshalJSON(b []byte) error {
 	var a []interface{}
